@@ -2,6 +2,7 @@ package explore
 
 import (
 	"fmt"
+	"os"
 	"strconv"
 	"strings"
 	"time"
@@ -115,6 +116,14 @@ func (d *DFS) one(prefix []int) (Exec, bool) {
 		w.Harness(fmt.Sprintf("%v: %s", c, x.Err))
 		w.Record(c, Result{Outcome: "harness-error"})
 		return x, false
+	}
+	if x.Res.Viol != "" && strings.HasPrefix(x.Res.Viol, "horizon") && os.Getenv("VERIF_RD") != "" {
+		// race-directed runs put points into arbitrary code, loops included: an execution that
+		// outgrows the step horizon there is a limit of the exploration, not a liveness verdict
+		w.Cap(fmt.Sprintf("%s: race-directed run exceeded the step horizon; exploration of this unit stopped", d.Unit))
+		d.capped = true
+		x.Res.Viol = ""
+		x.Res.Outcome = "rd-horizon"
 	}
 	d.Executions++
 	if len(x.Points) > d.MaxPoints {
